@@ -10,8 +10,10 @@ import (
 	"crypto/ed25519"
 	"encoding/base64"
 	"encoding/json"
+	"fmt"
 	"math/big"
 	"strings"
+	"sync"
 	"testing"
 
 	"github.com/trustbloc/sidetree-go/pkg/jws"
@@ -355,4 +357,100 @@ func TestC15_BitScan(t *testing.T) {
 			}
 		}
 	}
+}
+
+// TestC15_CallerHeaders: a JWS made by NewJWS with the library's signers and further protected headers of the caller's
+// choosing (the library knows "b64" of RFC 7797 in its signing input) survives SerializeCompact + VerifyJWS.
+func TestC15_CallerHeaders(t *testing.T) {
+	st := statsFor("C15")
+	check(t, "C15", 400, func(t *rapid.T) {
+		k := genKey(t, "key")
+		payload := genPayload(t)
+		kid := rapid.SampledFrom([]string{"", "key-1"}).Draw(t, "kid")
+		extra := rapid.SampledFrom([]jws.Headers{nil, {"b64": false}, {"b64": true}, {"typ": "JWT"}, {"cty": "json", "b64": false}}).Draw(t, "extra")
+		sig, err := jwsutil.NewJWS(extra, nil, payload, libSignerFor(k, k.Type.Alg(), kid))
+		if err != nil {
+			t.Fatalf("C15 NewJWS(%v): %v", extra, err)
+		}
+		compact, err := sig.SerializeCompact(false)
+		if err != nil {
+			t.Fatalf("C15 SerializeCompact: %v", err)
+		}
+		parsed, err := jwsutil.VerifyJWS(compact, k.LibJWK())
+		if err != nil {
+			t.Fatalf("C15 %s: JWS with protected headers %v does not verify under the matching key: %v\n jws=%s", k.Name, extra, err, compact)
+		}
+		if !bytes.Equal(parsed.Payload, payload) {
+			t.Fatalf("C15 %s: JWS with protected headers %v returns payload %x, want %x", k.Name, extra, parsed.Payload, payload)
+		}
+		if _, err := jwsutil.VerifyJWS(compact, otherKey(t, k).LibJWK()); err == nil {
+			t.Fatalf("C15 %s: JWS with protected headers %v verifies under another key", k.Name, extra)
+		}
+		seg := strings.Split(compact, ".")
+		pb, _ := base64.RawURLEncoding.DecodeString(seg[1])
+		i := rapid.IntRange(0, len(pb)*8-1).Draw(t, "bit")
+		pb[i/8] ^= 1 << (i % 8)
+		if _, err := jwsutil.VerifyJWS(seg[0]+"."+b64(pb)+"."+seg[2], k.LibJWK()); err == nil {
+			t.Fatalf("C15 %s: JWS with protected headers %v verifies after a payload bit changed", k.Name, extra)
+		}
+		_, hasB64 := extra["b64"]
+		st.Case(hasB64, fmt.Sprint("hdr|", k.Name, extra, payload), "caller-headers", fmt.Sprintf("caller-headers-%v", extra))
+	})
+}
+
+// TestC15_Concurrent: the round trip holds for every key also when many signatures are made and verified at the same time.
+func TestC15_Concurrent(t *testing.T) {
+	st := statsFor("C15")
+	check(t, "C15", 30, func(t *rapid.T) {
+		kt := genKeyType(t, "kt") // all goroutines on one key type: shared per-curve state is what could go wrong
+		n := rapid.IntRange(2, 8).Draw(t, "goroutines")
+		rounds := rapid.IntRange(10, 40).Draw(t, "rounds")
+		type job struct {
+			k       *Key
+			payload []byte
+			compact string
+		}
+		jobs := make([]job, n)
+		for i := range jobs {
+			k := genKeyOf(t, kt, "key")
+			// long payloads: the time spent hashing is where verifications of one curve could get in each other's way
+			payload := bytes.Repeat(rapid.SliceOfN(rapid.Byte(), 1, 64).Draw(t, "payload"), rapid.IntRange(1, 2048).Draw(t, "repeat"))
+			jobs[i] = job{k, payload, signCompact(k, map[string]interface{}{"alg": k.Type.Alg()}, payload, 0)}
+		}
+		errs := make(chan string, n)
+		var wg sync.WaitGroup
+		for i := range jobs {
+			wg.Add(1)
+			go func(j job) {
+				defer wg.Done()
+				defer func() {
+					if r := recover(); r != nil {
+						errs <- fmt.Sprintf("panic while verifying: %v", r)
+					}
+				}()
+				for r := 0; r < rounds; r++ {
+					parsed, err := jwsutil.VerifyJWS(j.compact, j.k.LibJWK())
+					if err != nil || !bytes.Equal(parsed.Payload, j.payload) {
+						errs <- fmt.Sprintf("%s: valid JWS does not verify (round %d): %v", j.k.Name, r, err)
+						return
+					}
+					c2, err := signutil.SignPayload(j.payload, libSignerFor(j.k, j.k.Type.Alg(), ""))
+					if err != nil {
+						errs <- fmt.Sprintf("%s: SignPayload: %v", j.k.Name, err)
+						return
+					}
+					if _, err := jwsutil.VerifyJWS(c2, j.k.LibJWK()); err != nil {
+						errs <- fmt.Sprintf("%s: library-made JWS does not verify (round %d): %v", j.k.Name, r, err)
+						return
+					}
+				}
+			}(jobs[i])
+		}
+		awaitWorkers(t, &wg, "C15 concurrent signature verification")
+		close(errs)
+		for e := range errs {
+			t.Fatalf("C15 (with %d goroutines at the same time, %s) %s", n, kt, e)
+		}
+		st.Case(n >= 4, fmt.Sprint("concurrent|", kt, n, rounds, jobs[0].k.Name), "concurrent", "concurrent-"+kt.String())
+	})
 }
